@@ -173,10 +173,13 @@ func (s *scanner) Next() (*hrpc.Result, error) {
 
 	select {
 	case <-s.rpc.Context().Done():
-		if s.closed {
-			// the error has been returned already
+		if s.closed && len(s.results) == 0 {
+			// the error has been returned already or the scan is over
 			return nil, io.EOF
 		}
+		// rows that are still buffered are not handed out anymore; ending the
+		// scan with io.EOF instead would silently truncate it
+		s.results = nil
 		s.Close()
 		return nil, s.rpc.Context().Err()
 	default:
